@@ -17,7 +17,8 @@ RULE = (
     "a case is one simulated batch run of the real CLI (2-8 files, random order, jobs 1..4 or default, --fix/--backup | plain | -ap, "
     "output format, style, --json/--junit, configuration stack with per-file sections, literal names or globs with permuted directory "
     "order, random SimPool schedule) compared file by file with solo runs of the same tree in a pristine process of another hash-seed "
-    "class; or one --stdin run compared with the named-file run. Non-trivial = at least 2 files and (jobs = 1 or some worker handled "
+    "class; or one --stdin run compared with the named-file run; or (optleak) two or three copies of one design of which only the first "
+    "gets a documented option value through a per-file section. Non-trivial = at least 2 files and (jobs = 1 or some worker handled "
     ">= 2 tasks or >= 1 context switch), or a stdin/named pair whose named run reports >= 1 violation; distinct = distinct (multiset of "
     "file digests, option set, schedule-trace hash)."
 )
@@ -27,9 +28,10 @@ ASSUMPTIONS = [
     "files whose solo run ends in an unhandled exception are excluded from batches (C19's subject)",
     "after VSG itself stops a batch (configuration error) later files may be processed or not; they must be untouched/unreported or exactly the solo result",
     "duplicate targets only appear in batches without --fix",
+    "with --debug / --force_fix the diagnostics printed straight from the processing worker are compared as a multiset of lines (their position between other files' reports is schedule dependent on the pinned tree)",
 ]
 REAL_COMPONENTS = ["vsg.__main__.main and everything below it", "pickle transport of pool tasks/results", "kernel tmpfs file system", "forked worker processes with their own module state"]
-STUBBED_COMPONENTS = ["multiprocessing.Pool scheduling (SimPool + Decider)", "clock/hostname (simulated, so JUnit headers are comparable)", "directory order of glob/listdir (seeded permutation)", "stdin/stdout/stderr (captured, tagged)", "os.cpu_count (seeded 1..4)"]
+STUBBED_COMPONENTS = ["multiprocessing.Pool scheduling (SimPool + Decider)", "clock/hostname (simulated, so JUnit headers are comparable)", "directory order of glob/listdir (seeded permutation)", "stdin/stdout/stderr (captured, tagged)", "os.cpu_count (seeded 1..4)", "advisory file locks (a blocking flock/lockf becomes a loop of scheduling points)"]
 
 TC_RE = re.compile(r"  <testcase .*?</testcase>", re.S)
 
